@@ -20,6 +20,15 @@ def instances(tier, seed):
         yield from EI.gen([pol], tier, seed, shapes=("chain2", "chain3", "fork", "join"),
                           max_n=3, variants=(7,), clusters=("c2",), progress=("fresh",),
                           deadlines=("loose",), blocker=True)
+    # a join with one COMPLETED and one SCHEDULED parent (either order, either strategy
+    # of the scheduled one), with and without retraction
+    for pol in ("ILP", "TSG"):
+        yield from EI.gen([pol], tier, seed, shapes=("join",), max_n=3, variants=(0, 8),
+                          clusters=("c2", "c1c1"),
+                          progress=("join_mixed_a0", "join_mixed_a1", "join_mixed_b0",
+                                    "join_mixed_b1"),
+                          deadlines=("loose",),
+                          opt_keys=("rtg", "la", "rtg+retract", "la+retract"))
     if th:
         for pol in ("ILP", "TSG"):
             yield from EI.gen([pol], tier, seed, shapes=("diamond", "chain4", "fork3"),
